@@ -164,7 +164,7 @@ def direct_case(fails, iso, j, ai, inp, rest, o, rng, full):
     # proportional to mass
     k = rng.choice([0.5, 3.0, 10.0, 1e-3])
     o2 = one_row(iso, ai, mass * k, env, expo, rest)
-    if isinstance(o2, BaseException) or o2 is None or not all(close(k * a, b, 1e-12) for a, b in zip(vals, o2)):
+    if isinstance(o2, BaseException) or o2 is None or not all(close(k * a, b, 1e-12, amp=k) for a, b in zip(vals, o2)):
         fails.add("C14:not-linear-in-mass", "activity at %g x mass is %r, expected %g x %r" % (k, o2, k, vals), factor=k, **where)
     # epithermal omitted below Cd ratio 1
     if cd < 1:
@@ -283,7 +283,7 @@ def direct_samples(fails, rng, n, only=None):
             s2 = act.Sample(formula, mass * 4)
             r2 = attempt(s2.calculate_activation, env, exposure=expo, rest_times=rest)
             if isinstance(r2, BaseException) or set(s2.activity) != set(s.activity) or any(
-                    not all(close(4 * a, float(b), 1e-12) for a, b in zip(got[k], s2.activity[k])) for k in got):
+                    not all(close(4 * a, float(b), 1e-12, amp=4) for a, b in zip(got[k], s2.activity[k])) for k in got):
                 fails.add("C14:sample-not-linear-in-mass", "Sample(%r) at 4 x mass is not 4 x the activation" % formula, **where)
 
 
